@@ -5,14 +5,14 @@ from props.common import ALL_CONTRACTS
 CONTRACT_MODULES = ALL_CONTRACTS
 P = "__init__.ExcludeRegionPlugin."
 FUNCTIONS = [P + "on_event", P + "handleGcodeQueuing", P + "handleAtCommandQueuing", P + "handleScriptHook",
-             "ExcludeRegionState.ExcludeRegionState.resetState"]
+             "ExcludeRegionState.ExcludeRegionState.resetState", "__init__.ExcludeRegionPlugin._handleSettingsUpdated"]
 ASSUMPTIONS = ["A1", "A3", "A4", "INDUCTION"]
 EXTRA_ASSUMPTIONS = ["Events.SETTINGS_UPDATED is outside the on_event contract: _handleSettingsUpdated (settings plumbing) is unverified surroundings",
                      "GcodeHandlers.handleGcode/handleAtCommand are seen by the hooks through a delegation summary (call logged, state havocked)"]
 EXPLANATION = ("Hooks: with no active job the three hooks return None with an empty write set and delegate nothing; "
                "with an active job they delegate exactly once with the same arguments. on_event implements the "
                "reference automaton spec/lifecycle.py for every event name (known names enumerated, one symbolic "
-               "name distinct from all of them).")
+               "name distinct from all of them). _handleSettingsUpdated sets clearRegionsAfterPrintFinishes (and every other flag) from its own settings key.")
 BREAKERS = [
     {"module": "__init__", "old": "if (gcode and self.isActivePrintJob):", "new": "if (gcode):",
      "desc": "gcode hook ignores the active-job guard", "functions": [P + "handleGcodeQueuing"]},
